@@ -83,6 +83,27 @@ if w.get("op") == "library-version":
                 bad.append(f"{Lib.__name__}: object written after overwriting a legacy file reads back differently")
         except BaseException as ex:
             bad.append(f"{Lib.__name__}(path_of_a_legacy_file, overwrite=True): what is written cannot be read back ({type(ex).__name__}: {str(ex)[:60]})")
+        # a legacy library opened for writing WITHOUT overwrite keeps the legacy encoding: old and new records read back through
+        # the writable handle and through a fresh read-only one
+        p = os.path.join(d, "legacy.lib")
+        with UKVFile(p, "w", h1=b"ML10Library"):
+            pass
+        try:
+            l1 = Lib(p, readonly=False)
+            with l1.writing():
+                l1["a"] = obj
+            l2 = Lib(p, readonly=False)
+            with l2.writing():
+                l2["b"] = obj
+            with l2.reading():
+                got = [l2[k] for k in ("a", "b")]
+            l3 = Lib(p)
+            with l3.reading():
+                got += [l3[k] for k in ("a", "b")]
+            if any(g.n_atoms != obj.n_atoms or g.name != obj.name or [a.element for a in g.atoms] != [a.element for a in obj.atoms] for g in got):
+                bad.append(f"{Lib.__name__}: records of a legacy library opened with readonly=False read back differently")
+        except BaseException as ex:
+            bad.append(f"{Lib.__name__}(path_of_a_legacy_file, readonly=False): old/new records cannot be read back ({type(ex).__name__}: {str(ex)[:60]})")
     if bad:
         print("REPRODUCED:", "; ".join(bad))
         sys.exit(0)
